@@ -137,16 +137,7 @@ def run(ctx: Ctx) -> None:
             ctx.sample({"input": src[:80], "maps": [(t.type, t.map) for t in md.parse(src) if t.map][:8]})
     # documents at scale: limits and counters that only large inputs reach (the table rule counts cells; lists count items)
     mdt = MarkdownIt("commonmark").enable("table")
-    wide = "|".join(["h"] * 2048)
-    scale = [
-        ("sparse table 2048x40", "|" + wide + "|\n|" + "|".join(["-"] * 2048) + "|\n" + "".join(f"|r{i}|\n" for i in range(40)) + "\ntail\n"),
-        ("sparse table in a quote", "> |" + wide + "|\n> |" + "|".join(["-"] * 2048) + "|\n" + "".join(f"> |r{i}|\n" for i in range(36)) + "\ntail\n"),
-        ("dense table 260x260", "|" + "|".join(["h"] * 260) + "|\n|" + "|".join(["-"] * 260) + "|\n" + ("|" + "|".join(["c"] * 260) + "|\n") * 260),
-        ("long list", "".join(f"{i}. item\n" for i in range(1, 1200)) + "\npara\n"),
-        ("many definitions", "".join(f"[r{i}]: /u{i}\n" for i in range(300)) + "\n[r7]\n"),
-        ("deep quotes", "".join("> " * (i % 60) + "x\n\n" for i in range(240))),
-    ]
-    for name, src in (scale if quick else scale + [("sparse table 4096x40", src_.replace("|h", "|h|h", 2048)) for _, src_ in scale[:1]]):
+    for name, src in gens.scale_docs(quick):
         try:
             e = check(mdt, src)
         except Exception:
